@@ -3,9 +3,9 @@
 //! against element-wise sums for many iterator shapes, and the counting allocator as the
 //! ground truth for owned buffers.
 
-use crate::oracle::{Stats, Viol};
-use crate::rng::{mix, Rng};
-use crate::valloc;
+use lruverif::oracle::{Stats, Viol};
+use lruverif::rng::{mix, Rng};
+use lruverif::valloc;
 use lru_mem::{HeapSize, MemSize, ValueSize};
 use std::collections::{BinaryHeap, HashMap, HashSet};
 use std::ffi::{CStr, CString, OsString};
@@ -15,69 +15,7 @@ use std::ops::{Range, RangeFrom, RangeInclusive, RangeTo, RangeToInclusive};
 use std::path::{Path, PathBuf};
 use std::sync::{Mutex, RwLock};
 
-// ------------------------------------------------------------------------------ the laws, stated independently
-
-/// heap size according to the stated composition laws (u128, no overflow)
-pub trait Spec {
-    fn spec_heap(&self) -> u128;
-    /// does the allocator-exactness clause of C09 apply (false below a HashMap/HashSet, which only have bounds)
-    fn exact(&self) -> bool { true }
-    /// bytes the law attributes to hash tables' own buffers in this value (lower bound part for C09)
-    fn name() -> String where Self: Sized { std::any::type_name::<Self>().replace("alloc::", "").replace("std::", "").replace("core::", "").replace("string::", "").replace("vec::", "").replace("boxed::", "") }
-}
-
-macro_rules! leaf { ($($t:ty),*) => { $( impl Spec for $t { fn spec_heap(&self) -> u128 { 0 } } )* } }
-leaf!((), u8, u16, u32, u64, u128, usize, i8, i16, i32, i64, f32, f64, bool, char, str, CStr, Path, std::ffi::OsStr,
-      std::time::Duration, std::cmp::Ordering, std::net::Ipv4Addr, std::num::NonZeroU32, std::ops::RangeFull, std::collections::hash_map::RandomState);
-impl<T> Spec for std::marker::PhantomData<T> { fn spec_heap(&self) -> u128 { 0 } }
-impl<T: ?Sized> Spec for &T { fn spec_heap(&self) -> u128 { 0 } }
-
-impl<T: Spec> Spec for [T] { fn spec_heap(&self) -> u128 { self.iter().map(|x| x.spec_heap()).sum() } fn exact(&self) -> bool { self.iter().all(|x| x.exact()) } }
-impl<T: Spec, const N: usize> Spec for [T; N] { fn spec_heap(&self) -> u128 { self.iter().map(|x| x.spec_heap()).sum() } fn exact(&self) -> bool { self.iter().all(|x| x.exact()) } }
-impl<T: Spec> Spec for Vec<T> {
-    fn spec_heap(&self) -> u128 { self.capacity() as u128 * size_of::<T>() as u128 + self.iter().map(|x| x.spec_heap()).sum::<u128>() }
-    fn exact(&self) -> bool { self.iter().all(|x| x.exact()) }
-}
-impl<T: Spec + ?Sized> Spec for Box<T> {
-    fn spec_heap(&self) -> u128 { std::mem::size_of_val::<T>(&**self) as u128 + (**self).spec_heap() }
-    fn exact(&self) -> bool { (**self).exact() }
-}
-impl Spec for String { fn spec_heap(&self) -> u128 { self.capacity() as u128 } }
-impl Spec for OsString { fn spec_heap(&self) -> u128 { self.capacity() as u128 } }
-impl Spec for PathBuf { fn spec_heap(&self) -> u128 { self.capacity() as u128 } }
-impl Spec for CString { fn spec_heap(&self) -> u128 { self.as_bytes_with_nul().len() as u128 } }
-impl<T: Spec> Spec for Option<T> { fn spec_heap(&self) -> u128 { self.as_ref().map(|x| x.spec_heap()).unwrap_or(0) } fn exact(&self) -> bool { self.as_ref().map(|x| x.exact()).unwrap_or(true) } }
-impl<T: Spec, E: Spec> Spec for Result<T, E> {
-    fn spec_heap(&self) -> u128 { match self { Ok(x) => x.spec_heap(), Err(e) => e.spec_heap() } }
-    fn exact(&self) -> bool { match self { Ok(x) => x.exact(), Err(e) => e.exact() } }
-}
-impl<T: Spec> Spec for Wrapping<T> { fn spec_heap(&self) -> u128 { self.0.spec_heap() } fn exact(&self) -> bool { self.0.exact() } }
-impl<T: Spec> Spec for Range<T> { fn spec_heap(&self) -> u128 { self.start.spec_heap() + self.end.spec_heap() } }
-impl<T: Spec> Spec for RangeFrom<T> { fn spec_heap(&self) -> u128 { self.start.spec_heap() } }
-impl<T: Spec> Spec for RangeTo<T> { fn spec_heap(&self) -> u128 { self.end.spec_heap() } }
-impl<T: Spec> Spec for RangeToInclusive<T> { fn spec_heap(&self) -> u128 { self.end.spec_heap() } }
-impl<T: Spec> Spec for RangeInclusive<T> { fn spec_heap(&self) -> u128 { self.start().spec_heap() + self.end().spec_heap() } }
-impl<T: Spec> Spec for Mutex<T> { fn spec_heap(&self) -> u128 { self.lock().unwrap().spec_heap() } fn exact(&self) -> bool { self.lock().unwrap().exact() } }
-impl<T: Spec> Spec for RwLock<T> { fn spec_heap(&self) -> u128 { self.read().unwrap().spec_heap() } fn exact(&self) -> bool { self.read().unwrap().exact() } }
-impl<K: Spec, V: Spec> Spec for HashMap<K, V> {
-    fn spec_heap(&self) -> u128 { self.capacity() as u128 * size_of::<(K, V)>() as u128 + self.iter().map(|(k, v)| k.spec_heap() + v.spec_heap()).sum::<u128>() }
-    fn exact(&self) -> bool { false }
-}
-impl<T: Spec> Spec for HashSet<T> {
-    fn spec_heap(&self) -> u128 { self.capacity() as u128 * size_of::<T>() as u128 + self.iter().map(|x| x.spec_heap()).sum::<u128>() }
-    fn exact(&self) -> bool { false }
-}
-impl<T: Spec + Ord> Spec for BinaryHeap<T> {
-    fn spec_heap(&self) -> u128 { self.capacity() as u128 * size_of::<T>() as u128 + self.iter().map(|x| x.spec_heap()).sum::<u128>() }
-    fn exact(&self) -> bool { self.iter().all(|x| x.exact()) }
-}
-macro_rules! tuple_spec { ($( ($($n:ident $i:tt),+) ),+) => { $( impl<$($n: Spec),+> Spec for ($($n,)+) {
-    fn spec_heap(&self) -> u128 { 0 $(+ self.$i.spec_heap())+ }
-    fn exact(&self) -> bool { true $(&& self.$i.exact())+ }
-} )+ } }
-tuple_spec!((A 0), (A 0, B 1), (A 0, B 1, C 2), (A 0, B 1, C 2, D 3), (A 0, B 1, C 2, D 3, E 4), (A 0, B 1, C 2, D 3, E 4, F 5),
-    (A 0, B 1, C 2, D 3, E 4, F 5, G 6), (A 0, B 1, C 2, D 3, E 4, F 5, G 6, H 7), (A 0, B 1, C 2, D 3, E 4, F 5, G 6, H 7, I 8),
-    (A 0, B 1, C 2, D 3, E 4, F 5, G 6, H 7, I 8, J 9));
+pub use crate::memspec::Spec;
 
 // ------------------------------------------------------------------------------ random construction
 
@@ -335,30 +273,3 @@ pub fn run_memsize(seed: u64, rounds: u64, shard: Option<(u64, u64)>) -> MsOut {
     out
 }
 
-// ------------------------------------------------------------------------------ totality (run in a subprocess)
-
-/// One totality case: builds a big input and estimates its size. Returns a description and the result.
-pub fn totality_case(case: u64, n: usize) -> Option<(String, u128, u128)> {
-    fn strs(n: usize) -> Vec<String> { (0..n).map(|i| if i % 3 == 0 { String::with_capacity(3) } else { String::new() }).collect() }
-    Some(match case {
-        0 => { let v: Vec<[String; 0]> = (0..n).map(|_| []).collect(); ("Vec<[String; 0]>.heap_size()".into(), v.heap_size() as u128, v.spec_heap()) }
-        1 => { let v: Vec<[u8; 0]> = vec![[]; n]; ("Vec<[u8; 0]>.heap_size()".into(), v.heap_size() as u128, v.spec_heap()) }
-        2 => { let v: Vec<[[String; 0]; 3]> = (0..n).map(|_| [[], [], []]).collect(); ("Vec<[[String; 0]; 3]>.heap_size()".into(), v.heap_size() as u128, v.spec_heap()) }
-        3 => { let v: Vec<()> = vec![(); n * 10]; ("Vec<()>.heap_size()".into(), v.heap_size() as u128, v.spec_heap()) }
-        4 => { let v: Vec<Vec<u8>> = (0..n).map(|i| Vec::with_capacity(i % 4)).collect(); ("Vec<Vec<u8>>.heap_size()".into(), v.heap_size() as u128, v.spec_heap()) }
-        5 => { let v: Vec<(String,)> = strs(n).into_iter().map(|s| (s,)).collect(); ("Vec<(String,)>.heap_size()".into(), v.heap_size() as u128, v.spec_heap()) }
-        6 => { let v: Vec<Box<[u8]>> = (0..n).map(|i| vec![0u8; i % 3].into_boxed_slice()).collect(); ("Vec<Box<[u8]>>.heap_size()".into(), v.heap_size() as u128, v.spec_heap()) }
-        7 => { let v: Box<[[String; 0]]> = (0..n).map(|_| []).collect::<Vec<_>>().into_boxed_slice(); ("Box<[[String; 0]]>.heap_size()".into(), v.heap_size() as u128, v.spec_heap()) }
-        8 => { let v: Vec<[String; 1]> = strs(n).into_iter().map(|s| [s]).collect(); ("Vec<[String; 1]>.heap_size()".into(), v.heap_size() as u128, v.spec_heap()) }
-        9 => { let v: Vec<[String; 0]> = (0..n).map(|_| []).collect(); ("<[String; 0]>::heap_size_sum_exact_size_iter".into(), <[String; 0]>::heap_size_sum_exact_size_iter(|| v.iter()) as u128, 0) }
-        10 => { let v: Vec<[String; 0]> = (0..n).map(|_| []).collect(); ("<[String; 0]>::heap_size_sum_iter (filtered)".into(), <[String; 0]>::heap_size_sum_iter(|| v.iter().filter(|_| true)) as u128, 0) }
-        11 => { let v: Vec<[String; 3]> = (0..n / 4).map(|i| [String::new(), String::with_capacity(i % 5), String::new()]).collect(); ("Vec<[String; 3]>.heap_size()".into(), v.heap_size() as u128, v.spec_heap()) }
-        12 => { let v: Vec<Option<[String; 0]>> = (0..n).map(|i| if i % 2 == 0 { Some([]) } else { None }).collect(); ("Vec<Option<[String; 0]>>.heap_size()".into(), v.heap_size() as u128, v.spec_heap()) }
-        13 => { let mut m: HashMap<u32, [String; 0]> = HashMap::new(); for i in 0..(n / 10) as u32 { m.insert(i, []); } ("HashMap<u32, [String; 0]>.heap_size()".into(), m.heap_size() as u128, m.spec_heap()) }
-        14 => { let v: Vec<[[u8; 0]; 0]> = vec![[]; n]; ("Vec<[[u8; 0]; 0]>.heap_size()".into(), v.heap_size() as u128, v.spec_heap()) }
-        15 => { let v: Vec<String> = strs(n); ("String::value_size_sum_iter (count)".into(), String::value_size_sum_iter(v.iter().filter(|_| true)) as u128, (v.len() * size_of::<String>()) as u128) }
-        16 => { let mut v: Vec<[String; 0]> = Vec::new(); let mut w: Vec<[String; 2]> = Vec::new(); for i in 0..n / 2 { v.push([]); w.push([String::new(), String::with_capacity(i % 2)]); } let t = (v, w); ("(Vec<[String; 0]>, Vec<[String; 2]>).heap_size()".into(), t.heap_size() as u128, t.spec_heap()) }
-        17 => { let v: BinaryHeap<[u8; 0]> = vec![[]; n].into(); ("BinaryHeap<[u8; 0]>.heap_size()".into(), v.heap_size() as u128, v.spec_heap()) }
-        _ => return None,
-    })
-}
